@@ -4,6 +4,8 @@ import Blue.Proofs.ProtoMsg
 import Blue.Proofs.Varint
 import Blue.Proofs.ProtoSz
 import Blue.Proofs.ProtoUnknown
+import Blue.Proofs.ProtoFuel
+import Blue.Proofs.ProtoDeep
 import Blue.Proofs.EntryCodec
 import Blue.Proofs.ConstsTieProto
 /-! # Property C15 — the protobuf codec round-trips all values and decodes arbitrary bytes safely
@@ -22,9 +24,21 @@ on checked `u64` arithmetic, with the ten-byte boundary that selects between the
 `#[derive(Message)]` code of a family of 17 types against `ProtoMsg` byte for byte, and the flat
 interpreter side by side on the flat members of the family.
 
-Decoder *totality* is by construction: `unpackMsg` is a total function into `value ⊕ error class`
-(`decode_total`); that the code never panics where the model returns an error is the hostile-stream
-correspondence, not a theorem. -/
+Fuel.  `unpackMsg` / `packMsg` / `packSzMsg` / `WfMsg` take a fuel for the nesting of message types
+and return `bufferTooShort` / `[]` / `0` / `False` when it runs out — results that also occur
+genuinely.  `fuel_stability` shows that every fuel reaching `Msg.depth m` (a structural function of
+the message type) gives the same functions; `decode` / `encode` / `encodeSz` / `Wf` are the
+interpreters at that fuel.  The theorems named `…_decode` / `…_any_fuel` are stated on them; the
+older theorems with a bare fuel `f` hold at every `f`, including fuels below the depth where both
+sides may be the exhaustion result — read them through `fuel_stability`.
+
+Model facts (not results about the code).  `decode_total` is a property of the type `Except`:
+the message interpreter has no panic outcome (only the varint-decoder model `Blue.Varint` has one,
+and `varint_unpack_is_decVarint` proves it unreachable).  That the code never panics where the
+model returns an error is observed by the no-panic oracle and the hostile-stream correspondence,
+not proved.  The second conjunct of `tag_roundtrip` restates the definition of `encTag`; there is
+no Lean specification of the protocol-buffers wire encoding independent of the model encoder
+(the independent encoder is the harness oracle). -/
 namespace Blue.Props.C15
 open Blue.Wire Blue.ProtoMsg
 
@@ -102,7 +116,9 @@ theorem fixed_roundtrip (k v : Nat) (rest : List Nat) (hv : v < 256 ^ k) :
 theorem scalar_roundtrip (s : Scalar) (v : Val) (h : WfScalar s v) (rest : List Nat) :
     decScalar s (encScalar s v ++ rest) = .ok (v, rest) := decScalar_enc s v h rest
 
-/-- tags round-trip -/
+/-- tags round-trip.  (The second conjunct is a MODEL FACT: it restates the definition of `encTag`
+    — tag = field number << 3 | wire type as a varint — and is kept for the reader, not as a
+    result.) -/
 theorem tag_roundtrip (t : Tag) (ht : validFieldNumber t.num = true) (rest : List Nat) :
     decTagE (encTag t ++ rest) = .ok (t, rest) ∧ encTag t = encVarint (t.num * 8 + t.wt.bits) :=
   ⟨decTagE_enc t ht rest, rfl⟩
@@ -169,15 +185,18 @@ theorem flat_unknown_field_step (schema : List Blue.Proto.Field) (acc : List Blu
     (h : ∀ f ∈ schema, ¬ (f.num = fld.1.num ∧ f.ty.wt = fld.1.wt)) :
     Blue.Proto.mergeInto schema acc fld = some acc := Blue.Proto.mergeInto_unknown schema acc fld h
 
-/-- `noncanonical_field_rejected`: a non-minimally encoded varint value in a struct field reaches
-    the field's unpacker truncated and is rejected (an error, never a misparse) -/
+/-- `noncanonical_field_rejected`, the step on the field type's unpacker (varint wire type): a
+    non-minimally encoded varint value reaches `decScalar` truncated and is rejected.  The statement
+    about the whole message is `noncanonical_message_rejected` below. -/
 theorem noncanonical_field_rejected (buf : List Nat) (x : Nat) (rest : List Nat)
     (h : decVarint buf = some (x, rest)) (hn : (encVarint x).length + rest.length < buf.length)
     (s : Scalar) (hs : s.wt = .varint) :
     decScalar s (buf.take (encVarint x).length) = .error .varintOverflow :=
   Blue.ProtoMsg.noncanonical_field_rejected buf x rest h hn s hs
 
-/-- `decode_total`: every byte string decodes to a value or to an error class -/
+/-- `decode_total` — a MODEL FACT, not a result about the code: it holds of every term of type
+    `Except` and says only that the message interpreter is a total function without a panic
+    outcome.  Message-level panic-freedom of the code is observed (no-panic oracle), not proved. -/
 theorem decode_total (f : Nat) (m : Msg) (bs : List Nat) :
     (∃ v rest, unpackMsg f m bs = .ok (v, rest)) ∨ (∃ e, unpackMsg f m bs = .error e) := unpack_total f m bs
 
@@ -303,8 +322,9 @@ theorem field_read_is_local (bs : List Nat) (hb : Blue.Varint.Bytes bs) (fld : T
     (h : fieldStepE bs = .ok (fld, rest)) : fieldStepE (bs ++ x) = .ok (fld, rest ++ x) :=
   fieldStepE_append bs hb fld rest x h
 
-/-- `unknown_fields_skipped_nested`: the same inside the frame of a nested struct that sits at any
-    field boundary of an outer struct, with anything after it -/
+/-- `unknown_fields_skipped_nested`: the same inside the frame of a nested struct (ONE level) that
+    sits at any field boundary of an outer struct, with anything after it; any number of levels is
+    `unknown_fields_skipped_any_depth` -/
 theorem unknown_fields_skipped_nested (f : Nat) (fs : List Field) (n : Nat) (opre osuf pre ub suf : List Nat)
     (t : Tag) (sl : List Nat)
     (hn : validFieldNumber n = true) (hopre : Blue.Varint.Bytes opre)
@@ -317,9 +337,9 @@ theorem unknown_fields_skipped_nested (f : Nat) (fs : List Field) (n : Nat) (opr
       = unpackMsg (f + 2) (.struct fs) (opre ++ (encTag ⟨n, .lengthDelimited⟩ ++ encBytes (pre ++ suf) ++ osuf)) :=
   unpackMsg_unknown_nested f fs n opre osuf pre ub suf t sl hn hopre hoclean hl hnested hpre hub hclean hu
 
-/-- any depth: two buffers that differ only inside the frame of one length-delimited field (at a
-    field boundary of the outer struct) unpack alike whenever every arm taking that field unpacks
-    the two frames alike — so the previous theorem composes through any number of nestings -/
+/-- one level of congruence: two buffers that differ only inside the frame of one length-delimited
+    field (at a field boundary of the outer struct) unpack alike whenever every arm taking that
+    field unpacks the two frames alike; iterated along a path in `nested_frame_congruence_path` -/
 theorem nested_frame_congruence (f : Nat) (fs : List Field) (n : Nat) (opre inner1 inner2 osuf : List Nat)
     (hn : validFieldNumber n = true) (hopre : Blue.Varint.Bytes opre)
     (hclean : (fieldsE (opre.length + 1) opre).2 = none)
@@ -344,6 +364,131 @@ theorem unknown_fields_skipped_named_variant (f : Nat) (vars : List Variant) (d 
     unpackMsg (f + 1) (.enum vars d) (encTag ⟨n, .lengthDelimited⟩ ++ encBytes (pre ++ ub ++ suf) ++ rest)
       = unpackMsg (f + 1) (.enum vars d) (encTag ⟨n, .lengthDelimited⟩ ++ encBytes (pre ++ suf) ++ rest) :=
   unpackMsg_unknown_named f vars d n i n' fs pre ub suf rest t sl hn hfind hl hpre hub hclean hu hunk
+
+/-! ## fuel: every fuel that reaches the depth of the message type is as good as any other -/
+
+/-- `fuel_stability`: at two fuels `f`, `g` that both reach `m.depth` — the number of message levels
+    on the longest chain of nested message types of `m`, a structural function of the type — the
+    decoder, the encoder, the size query and well-formedness agree on every input.  So at such a
+    fuel no answer is the exhaustion result of the interpreter (`bufferTooShort`, `[]`, `0`,
+    `False`), and `decode m = unpackMsg m.depth m`, `encode`, `encodeSz`, `Wf` are the fuel-free
+    reading.  (The inner fuels of the field iterator and of the UTF-8 validator are `length + 1`;
+    `inner_fuels_suffice` shows them immaterial too.) -/
+theorem fuel_stability (f g : Nat) (m : Msg) (hf : m.depth ≤ f) (hg : m.depth ≤ g) :
+    (∀ bs, unpackMsg f m bs = unpackMsg g m bs ∧ unpackMsg f m bs = decode m bs)
+    ∧ (∀ v, packMsg f m v = packMsg g m v ∧ packMsg f m v = encode m v)
+    ∧ (∀ v, packSzMsg f m v = packSzMsg g m v ∧ packSzMsg f m v = encodeSz m v)
+    ∧ (∀ v, (WfMsg f m v ↔ WfMsg g m v) ∧ (WfMsg f m v ↔ Wf m v))
+    ∧ dfltMsg f m = dfltMsg g m :=
+  ⟨fun bs => ⟨by rw [unpackMsg_fuel f m hf, unpackMsg_fuel g m hg], unpackMsg_fuel f m hf bs⟩,
+   fun v => ⟨by rw [packMsg_fuel f m hf, packMsg_fuel g m hg], packMsg_fuel f m hf v⟩,
+   fun v => ⟨by rw [packSzMsg_fuel f m hf, packSzMsg_fuel g m hg], packSzMsg_fuel f m hf v⟩,
+   fun v => ⟨by rw [WfMsg_fuel f m hf, WfMsg_fuel g m hg], WfMsg_fuel f m hf v⟩,
+   (unpack_dflt_fuel f g m hf hg).2⟩
+
+/-- the two inner fuels (`fieldsE`, `validUtf8Aux`; both called with `length + 1`): any fuel above
+    the length of the buffer gives the same answer, so their exhaustion answers
+    (`bufferTooShort`, `false`) are never returned from `unpackFields` / `validUtf8` -/
+theorem inner_fuels_suffice (n m : Nat) (bs : List Nat) (hn : bs.length < n) (hm : bs.length < m) :
+    fieldsE n bs = fieldsE m bs ∧ validUtf8Aux n bs = validUtf8Aux m bs :=
+  ⟨fieldsE_fuel n m bs hn hm, validUtf8Aux_fuel n m bs hn hm⟩
+
+/-- `message_roundtrip` and `pack_sz_is_length` without fuel: for every value `v` of message type
+    `m`, decoding the encoding returns `v` and consumes everything, with the decoder and the
+    encoder at any two sufficient fuels; the size query reports the number of bytes written -/
+theorem message_roundtrip_any_fuel (m : Msg) (v : Val) (h : Wf m v) :
+    decode m (encode m v) = .ok (v, [])
+    ∧ (∀ f g, m.depth ≤ f → m.depth ≤ g → unpackMsg f m (packMsg g m v) = .ok (v, []))
+    ∧ encodeSz m v = (encode m v).length
+    ∧ (∀ rest, (∀ fs, m ≠ .struct fs) → decode m (encode m v ++ rest) = .ok (v, rest)) :=
+  ⟨decode_encode m v h, fun f g hf hg => unpack_pack_any_fuel f g m v hf hg h, encodeSz_eq_length m v h,
+   fun rest hm => decode_encode_rest m v h rest hm⟩
+
+/-- `unknown_fields_skipped_anywhere` on the fuel-free decoder -/
+theorem unknown_fields_skipped_anywhere_decode (fs : List Field) (pre ub suf : List Nat) (t : Tag) (sl : List Nat)
+    (hpre : Blue.Varint.Bytes pre) (hub : Blue.Varint.Bytes ub)
+    (hclean : (fieldsE (pre.length + 1) pre).2 = none)
+    (hu : fieldStepE ub = .ok ((t, sl), [])) (hunk : Unknown fs t) :
+    decode (.struct fs) (pre ++ ub ++ suf) = decode (.struct fs) (pre ++ suf) :=
+  decode_unknown_anywhere fs pre ub suf t sl hpre hub hclean hu hunk
+
+/-- `unknown_fields_skipped` (entry form) on the fuel-free decoder; `f` is only the fuel at which
+    the inserted and surrounding entries were packed -/
+theorem unknown_fields_skipped_decode (f : Nat) (fs : List Field) (es1 es2 : List (Nat × Ty × Val)) (u : Nat × Ty × Val)
+    (h1 : ∀ e ∈ es1, WfEntry (WfMsg f) (packMsg f) e) (h2 : ∀ e ∈ es2, WfEntry (WfMsg f) (packMsg f) e)
+    (hu : WfEntry (WfMsg f) (packMsg f) u) (hunk : Unknown fs ⟨u.1, u.2.1.wt⟩)
+    (hf : (Msg.struct fs).depth ≤ f + 1) :
+    decode (.struct fs) ((es1 ++ u :: es2).flatMap (packEntry (packMsg f)))
+      = decode (.struct fs) ((es1 ++ es2).flatMap (packEntry (packMsg f))) :=
+  decode_unknown_entries f fs es1 es2 u h1 h2 hu hunk hf
+
+/-- `unknown_fields_skipped_named_variant` on the fuel-free decoder -/
+theorem unknown_fields_skipped_named_variant_decode (vars : List Variant) (d : Val) (n i n' : Nat) (fs : List Field)
+    (pre ub suf rest : List Nat) (t : Tag) (sl : List Nat)
+    (hn : validFieldNumber n = true)
+    (hfind : findVariant vars ⟨n, .lengthDelimited⟩ 0 = some (i, .named n' fs))
+    (hl : (pre ++ ub ++ suf).length < U64)
+    (hpre : Blue.Varint.Bytes pre) (hub : Blue.Varint.Bytes ub) (hclean : (fieldsE (pre.length + 1) pre).2 = none)
+    (hu : fieldStepE ub = .ok ((t, sl), [])) (hunk : Unknown fs t) :
+    decode (.enum vars d) (encTag ⟨n, .lengthDelimited⟩ ++ encBytes (pre ++ ub ++ suf) ++ rest)
+      = decode (.enum vars d) (encTag ⟨n, .lengthDelimited⟩ ++ encBytes (pre ++ suf) ++ rest) :=
+  decode_unknown_named vars d n i n' fs pre ub suf rest t sl hn hfind hl hpre hub hclean hu hunk
+
+/-! ## unknown fields at any nesting depth -/
+
+/-- `nested_frame_congruence` iterated along a path `Ls` of nested struct frames of any length
+    (`wrap Ls x` = the outermost buffer: at each level the bytes before the nested field, its tag,
+    the length-prefixed next level, the bytes after; `PathTo P fs Ls` = at each level the field
+    number is valid, the bytes before are complete fields, every arm of the struct taking
+    (number, length-delimited) is a nested struct on which the rest of the path holds, and the
+    innermost struct satisfies `P`): if every innermost struct unpacks `x1` and `x2` alike, the
+    outermost struct unpacks the two buffers alike -/
+theorem nested_frame_congruence_path (P : List Field → Prop) (x1 x2 : List Nat)
+    (hP : ∀ gs, P gs → ∀ f, unpackMsg (f + 1) (.struct gs) x1 = unpackMsg (f + 1) (.struct gs) x2)
+    (Ls : List Frame) (f : Nat) (fs : List Field) (hpath : PathTo P fs Ls)
+    (h1 : (wrap Ls x1).length < U64) (h2 : (wrap Ls x2).length < U64) :
+    unpackMsg (f + 1 + Ls.length) (.struct fs) (wrap Ls x1)
+      = unpackMsg (f + 1 + Ls.length) (.struct fs) (wrap Ls x2) :=
+  unpackMsg_congr_path P x1 x2 hP Ls f fs hpath h1 h2
+
+/-- `unknown_fields_skipped_any_depth`: an unknown field inserted at any field boundary of the body
+    of a struct nested `Ls.length` levels deep — every level sitting at any field boundary of the
+    enclosing struct, with anything after it — changes nothing in what the outermost struct
+    unpacks to (value or error); on the fuel-free decoder and at every fuel `f + 1 + depth of the
+    path` -/
+theorem unknown_fields_skipped_any_depth (t : Tag) (sl pre ub suf : List Nat)
+    (hpre : Blue.Varint.Bytes pre) (hub : Blue.Varint.Bytes ub)
+    (hclean : (fieldsE (pre.length + 1) pre).2 = none)
+    (hu : fieldStepE ub = .ok ((t, sl), []))
+    (Ls : List Frame) (fs : List Field) (hpath : PathTo (fun gs => Unknown gs t) fs Ls)
+    (hl : (wrap Ls (pre ++ ub ++ suf)).length < U64) (hl' : (wrap Ls (pre ++ suf)).length < U64) :
+    decode (.struct fs) (wrap Ls (pre ++ ub ++ suf)) = decode (.struct fs) (wrap Ls (pre ++ suf))
+    ∧ ∀ f, unpackMsg (f + 1 + Ls.length) (.struct fs) (wrap Ls (pre ++ ub ++ suf))
+        = unpackMsg (f + 1 + Ls.length) (.struct fs) (wrap Ls (pre ++ suf)) :=
+  ⟨unpackMsg_unknown_path_decode t sl pre ub suf hpre hub hclean hu Ls fs hpath hl hl',
+   fun f => unpackMsg_unknown_path t sl pre ub suf hpre hub hclean hu Ls f fs hpath hl hl'⟩
+
+/-! ## a non-canonical varint field makes the whole struct fail -/
+
+/-- `noncanonical_message_rejected`: `nb` is a varint the decoder reads completely but longer than
+    the canonical encoding of its value `x`; it arrives as the payload of field `n` with the varint
+    wire type at any field boundary of any buffer (`pre` complete fields, `suf` anything) and the
+    struct has an arm for (`n`, varint).  `unpackMsg` rejects the buffer: with the error the
+    fields before it already produced, else with `varint-overflow` — never a value.  (Struct
+    fields only: an enum reads its payload from the whole remaining buffer and accepts
+    non-minimal varints; non-minimal LENGTH prefixes are not covered by a theorem.) -/
+theorem noncanonical_message_rejected (f : Nat) (fs : List Field) (n : Nat) (pre nb suf : List Nat) (x : Nat)
+    (hn : validFieldNumber n = true) (hpre : Blue.Varint.Bytes pre)
+    (hclean : (fieldsE (pre.length + 1) pre).2 = none)
+    (hdec : decVarint nb = some (x, [])) (hnc : (encVarint x).length < nb.length)
+    (harm : ∃ g ∈ fs, g.num = n ∧ g.ty.wt = .varint) :
+    unpackMsg (f + 1) (.struct fs) (pre ++ (encTag ⟨n, .varint⟩ ++ nb ++ suf))
+      = (match unpackMsg (f + 1) (.struct fs) pre with
+        | .error e => .error e
+        | .ok _ => .error .varintOverflow)
+    ∧ ∃ e, decode (.struct fs) (pre ++ (encTag ⟨n, .varint⟩ ++ nb ++ suf)) = .error e :=
+  ⟨unpackMsg_noncanonical_rejected f fs n pre nb suf x hn hpre hclean hdec hnc harm,
+   decode_noncanonical_rejected fs n pre nb suf x hn hpre hclean hdec hnc harm⟩
 
 /-! non-vacuity: concrete non-trivial values meet the hypotheses -/
 example : (300 : Nat) < U64 := by decide
@@ -400,6 +545,102 @@ example : ∀ g ∈ [Field.mk 1 .one (.scalar .uint64), .mk 4 .one (.msg (.struc
 example : findVariant [.unit 1, .named 2 [.mk 1 .one (.scalar .uint64)]] ⟨2, .lengthDelimited⟩ 0
     = some (1, .named 2 [.mk 1 .one (.scalar .uint64)]) := by simp [findVariant, Variant.num, Variant.wt]
 
+/-! ### non-vacuity for the fuel, depth, path and witness items (statement audit) -/
+
+/-- the exhaustion result is real below the depth and gone at it: a struct with a nested struct has
+    depth 2; at fuel 1 a valid buffer is answered `bufferTooShort` (the interpreter ran out of
+    fuel), on `decode` (fuel 2, and by `fuel_stability` every larger one) it is the value -/
+example :
+    (Msg.struct [.mk 2 .one (.msg (.struct [.mk 1 .one (.scalar .uint64)]))]).depth = 2
+    ∧ unpackMsg 1 (.struct [.mk 2 .one (.msg (.struct [.mk 1 .one (.scalar .uint64)]))]) [0x12, 0x02, 0x08, 0x05]
+        = .error .bufferTooShort
+    ∧ decode (.struct [.mk 2 .one (.msg (.struct [.mk 1 .one (.scalar .uint64)]))]) [0x12, 0x02, 0x08, 0x05]
+        = .ok (.struct [.struct [.int 5]], []) := by
+  have t1 : fieldsE 5 [0x12, 0x02, 0x08, 0x05] = ([(⟨2, .lengthDelimited⟩, [0x02, 0x08, 0x05])], none) := by
+    simp [fieldsE, fieldStepE, decTagE, decVarint, decVarintAux, validFieldNumber, WT.ofBits, U32MAX, U64, encVarint_lt]
+  have t2 : fieldsE 3 [0x08, 0x05] = ([(⟨1, .varint⟩, [0x05])], none) := by
+    simp [fieldsE, fieldStepE, decTagE, decVarint, decVarintAux, validFieldNumber, WT.ofBits, U32MAX, U64, encVarint_lt]
+  refine ⟨rfl, ?_, ?_⟩
+  · simp [unpackMsg, unpackFields, t1, mergeStep, mergeInto, Field.num, Field.ty, Ty.wt, decTyWith, decFrame,
+      decVarint, decVarintAux, U64]
+  · have hd : (Msg.struct [.mk 2 .one (.msg (.struct [.mk 1 .one (.scalar .uint64)]))]).depth = 2 := rfl
+    unfold decode
+    rw [hd]
+    simp [unpackMsg, unpackFields, t1, t2, mergeStep, mergeInto, Field.num, Field.ty, Field.card, Ty.wt, Scalar.wt,
+      decTyWith, decFrame, decVarint, decVarintAux, decScalar, decVarintE, mergeSlot, dfltSlotWith, dfltMsg,
+      dfltScalar, U64]
+
+/-- `Wf` (the hypothesis of `message_roundtrip_any_fuel`): the struct of the example above with a
+    plain, an optional, a repeated and a nested-enum field, at its own depth -/
+example : Wf
+    (.struct [.mk 1 .one (.scalar .uint64), .mk 2 .opt (.scalar .sint32), .mk 3 .rep (.scalar .bool),
+              .mk 4 .one (.msg (.enum [.unit 1, .tuple 2 (.scalar .uint64)] (.variant 0 (.struct []))))])
+    (.struct [.int 300, .some (.int (-1)), .list [.int 1, .int 0], .variant 1 (.int 7)]) := by
+  show WfMsg 2 _ _
+  simp only [WfMsg, WfFieldsWith, WfSlotWith, WfTyWith, WfScalar, WfVariantWith, Field.num, Field.card, Field.ty]
+  refine ⟨⟨by decide, by decide, by decide, by decide, by decide, ?_, by decide, ?_, trivial⟩, by decide⟩
+  · intro x hx; simp at hx; rcases hx with rfl | rfl <;> simp
+  · refine ⟨⟨.tuple 2 (.scalar .uint64), rfl, by decide, ?_, by decide⟩, ?_⟩
+    · intro j w hj hw
+      have : j = 0 := by omega
+      subst this; simp at hw; subst hw; decide
+    · simp [packMsg, packOne, encTyWith, encScalar, encTag, WT.bits, Ty.wt, Scalar.wt, encVarint_lt, U64]
+
+/-- a path of TWO nested frames for `unknown_fields_skipped_any_depth`: the outer struct holds (after
+    no bytes, before a varint field) field 2 = a struct that holds (after its varint field 1)
+    field 4 = a struct that knows field 1 only; tag (7, length-delimited) is unknown to the
+    innermost struct; with the `pre` / `ub` of the example above and a stray byte after them the
+    buffers are far below 2^64 bytes -/
+example : PathTo (fun gs => Unknown gs ⟨7, .lengthDelimited⟩)
+      [.mk 2 .one (.msg (.struct [.mk 1 .one (.scalar .uint64), .mk 4 .one (.msg (.struct [.mk 1 .one (.scalar .uint64)]))]))]
+      [⟨[], 2, [0x08, 0x01]⟩, ⟨[0x08, 0x05], 4, []⟩]
+    ∧ (wrap [⟨[], 2, [0x08, 0x01]⟩, ⟨[0x08, 0x05], 4, []⟩]
+        ([0x08, 0x80, 0x00, 0x4d, 1, 2, 3, 4] ++ [0x3a, 0x02, 0xaa, 0xbb] ++ [0xff])).length < U64
+    ∧ (wrap [⟨[], 2, [0x08, 0x01]⟩, ⟨[0x08, 0x05], 4, []⟩] ([0x08, 0x80, 0x00, 0x4d, 1, 2, 3, 4] ++ [0xff])).length < U64 := by
+  have c1 : (fieldsE ([0x08, 0x05].length + 1) [0x08, 0x05]).2 = none := by
+    simp [fieldsE, fieldStepE, decTagE, decVarint, decVarintAux, validFieldNumber, WT.ofBits, U32MAX, U64, encVarint_lt]
+  refine ⟨?_, by simp [wrap, encBytes, encTag, WT.bits, encVarint_lt, U64],
+    by simp [wrap, encBytes, encTag, WT.bits, encVarint_lt, U64]⟩
+  unfold PathTo
+  refine ⟨by decide, (by intro b hb; cases hb), rfl, ?_⟩
+  intro g hg _
+  simp at hg; subst hg
+  refine ⟨_, rfl, ?_⟩
+  unfold PathTo
+  refine ⟨by decide, (by intro b hb; simp at hb; omega), c1, ?_⟩
+  intro g hg hc
+  simp at hg
+  rcases hg with rfl | rfl
+  · simp [Field.num] at hc
+  · refine ⟨_, rfl, ?_⟩
+    unfold PathTo
+    intro f hf; simp at hf; subst hf; simp [Field.num]
+
+/-- the hypotheses of `noncanonical_message_rejected`: `80 00` is read completely as the value 0,
+    whose canonical encoding has one byte; the struct has a varint arm for field 1 -/
+example : validFieldNumber 1 = true ∧ decVarint [0x80, 0x00] = some (0, []) ∧ (encVarint 0).length < [0x80, 0x00].length
+    ∧ ∃ g ∈ [Field.mk 1 .one (.scalar .uint64)], g.num = 1 ∧ g.ty.wt = .varint := by
+  refine ⟨by decide, by decide, by rw [encVarint_lt (by omega)]; decide, _, List.mem_cons_self, rfl, rfl⟩
+
+/-- `Wf` of `flat_message_roundtrip`: one field of each of the four flat payload kinds, with the
+    largest `u64` in the fixed64 field; the field numbers are distinct -/
+example : Blue.Proto.Wf [⟨1, .uint64⟩, ⟨2, .bytes⟩, ⟨3, .fixed32⟩, ⟨4, .fixed64⟩]
+      [.num 300, .bytes [0x6b, 0x65, 0x79], .num 0xdeadbeef, .num 18446744073709551615]
+    ∧ (([⟨1, .uint64⟩, ⟨2, .bytes⟩, ⟨3, .fixed32⟩, ⟨4, .fixed64⟩] : List Blue.Proto.Field).map (·.num)).Nodup := by
+  refine ⟨.cons (by decide) ?_ (.cons (by decide) ?_ (.cons (by decide) ?_ (.cons (by decide) ?_ .nil))), by decide⟩
+  all_goals simp [Blue.Proto.WfVal, U64]
+
+/-- `Entry.Wf` of `entry_message_instance`: a put with a shared prefix, a two-byte timestamp and a
+    value; a tombstone with the largest timestamp and an empty key fragment -/
+example : (Blue.EntryCodec.Entry.put ⟨3, [0x6b, 0x65], 300, [1, 2, 3]⟩).Wf := by
+  refine ⟨⟨by decide, by decide, by decide, by decide⟩, ?_⟩
+  simp [Blue.EntryCodec.encPut, encBytes, encTag, WT.bits, encVarint_lt, encVarint_ge, U64]
+example : (Blue.EntryCodec.Entry.del ⟨0, [], 18446744073709551615⟩).Wf := by
+  refine ⟨⟨by decide, by decide, by decide⟩, ?_⟩
+  have := Blue.ProtoMsg.encVarint_length_le_ten 18446744073709551615 (by decide)
+  simp [Blue.EntryCodec.encDel, encBytes, encTag, WT.bits, encVarint_lt, U64]
+  omega
+
 end Blue.Props.C15
 
 #print axioms Blue.Props.C15.wire_types_from_source
@@ -440,3 +681,12 @@ end Blue.Props.C15
 #print axioms Blue.Props.C15.unknown_fields_skipped_named_variant
 #print axioms Blue.Props.C15.varint_pack_as_written
 #print axioms Blue.Props.C15.varint_encoder_from_source
+#print axioms Blue.Props.C15.fuel_stability
+#print axioms Blue.Props.C15.message_roundtrip_any_fuel
+#print axioms Blue.Props.C15.unknown_fields_skipped_anywhere_decode
+#print axioms Blue.Props.C15.unknown_fields_skipped_decode
+#print axioms Blue.Props.C15.unknown_fields_skipped_named_variant_decode
+#print axioms Blue.Props.C15.nested_frame_congruence_path
+#print axioms Blue.Props.C15.unknown_fields_skipped_any_depth
+#print axioms Blue.Props.C15.noncanonical_message_rejected
+#print axioms Blue.Props.C15.inner_fuels_suffice
